@@ -20,7 +20,7 @@ ID = 'C18'
 LEVEL = 'exploration'
 RULE = ('Runs are (a) coupled: stub precipitation world (1-2 phases, 1-4 solve calls, both iterators) with StrengthModel + GrainGrowthModel attached; alignment and clock invariants after every host step; '
         '(b) stand-alone GrainGrowthModel histories (3 distribution families, drag z from 0 to above the freezing level, 1-3 solve calls, Euler/RK4); '
-        '(c) strength formula points: seeded parameter sets and (r, Ls) grids incl. 0 and r < ri, dislocation character 0/90 degrees. '
+        '(c) strength formula points: seeded parameter sets and (r, Ls) grids incl. 0 and r < ri, dislocation character 0/90 degrees, default or seeded superposition exponents (single phase / multi-phase / total); total strength compared with the documented superposition. '
         'Non-trivial = at least 10 host steps with precipitates (a), at least 10 grain-growth steps (b), at least 20 evaluated points (c); distinct = distinct record digest; '
         'signature = (kind, iterators, calls, drag regime / contributions enabled).')
 ASSUMPTIONS = ['Grain clock compared with the host clock with tolerance 4 ulp x (steps+1) (the nested solve advances by differences of host times).',
@@ -42,7 +42,9 @@ def gen_strength_params(rng):
     return {'G': 79.3e9 * rng.choice([0.5, 1, 1]), 'b': b, 'nu': rng.choice([1 / 3, 0.3]), 'ri': b * rng.choice([1, 2, 4]), 'theta': rng.choice([90, 90, 0, 45]), 'psi': 120,
             'eps': rng.choice([None, 0.001, 0.01]), 'Gp': rng.choice([None, 70e9, 60e9]), 'yAPB': rng.choice([None, 0.04, 0.2]), 'SFE': rng.choice([None, [0.1, 0.05]]),
             'gamma': rng.choice([None, 0.5, 0.1]), 'M': rng.choice([1, 2.24, 3.06]), 'sigma0': rng.choice([0, 10e6, 50e6]), 'ss': rng.choice([None, 100e6, 1e9]), 'Tmodel': rng.choice(['complex', 'simple']),
-            'J': rng.choice(['complex', 'simple'])}
+            'J': rng.choice(['complex', 'simple']),
+            # superposition exponents [single phase, multi-phase same, multi-phase mixed, total]; None = defaults
+            'exps': rng.choice([None, None, [rng.choice([1.0, 1.4, 1.8, 2.0]), rng.choice([1.0, 1.8, 2.0]), rng.choice([1.0, 1.4, 2.0]), rng.choice([1.0, 1.5, 1.8, 2.0])]])}
 
 
 def make_strength(sp, elements=None):
@@ -64,6 +66,8 @@ def make_strength(sp, elements=None):
         sm.setSolidSolutionStrength({elements[0]: sp['ss']}, 1)
     sm.setTmodel(sp['Tmodel'])
     sm.setJfactor(sp['J'])
+    if sp.get('exps'):
+        sm.setStrengthSuperpositionExponent(*sp['exps'])
     return sm
 
 
@@ -329,6 +333,12 @@ def run_strength(rec, F, cnt):
             F.add('C18.total_strength', f'total strength {t!r} for solid-solution {a!r}, precipitate {b!r}, base {sm.sigma0!r} is not finite or below one of its parts', which='total')
         elif t2 < t * (1 - 1e-12) or t3 < t * (1 - 1e-12):
             F.add('C18.total_strength', f'total strength decreases when a part increases ({t!r} -> {t2!r} / {t3!r})', which='total_monotone')
+        else:
+            # documented superposition: (sigma0^n + ss^n + prec^n)^(1/n) with the total-strength exponent
+            nexp = (sp.get('exps') or [1.8, 1.8, 1.4, 1.8])[3]
+            want_t = (sm.sigma0 ** nexp + a ** nexp + b ** nexp) ** (1 / nexp)
+            if abs(t - want_t) > 1e-9 * max(want_t, 1.0):
+                F.add('C18.total_strength', f'total strength {t!r} is not the superposition {want_t!r} of base {sm.sigma0!r}, solid-solution {a!r} and precipitate {b!r} with exponent {nexp}', which='total_value')
     # mixed formulas reduce to edge / screw variants at 90 / 0 degrees (positive r, Ls only)
     ok = (r > 2 * sm.ri) & (Ls > 10 * sm.ri)
     if np.any(ok) and sp['theta'] in (0, 90) and sp['J'] == 'simple':
@@ -399,6 +409,6 @@ def shrink_candidates(rec):
                 r = copy.deepcopy(rec); r['pts'] = c; yield r
         for c in core.ddmin_candidates(rec['vals']):
             r = copy.deepcopy(rec); r['vals'] = c; yield r
-        for k in ('eps', 'Gp', 'yAPB', 'SFE', 'gamma', 'ss'):
+        for k in ('eps', 'Gp', 'yAPB', 'SFE', 'gamma', 'ss', 'exps'):
             if rec['sp'].get(k) is not None:
                 r = copy.deepcopy(rec); r['sp'][k] = None; yield r
